@@ -827,8 +827,8 @@ func (g *Gen) strLit(s string) string {
 	sym := quote(fmt.Sprintf("str!%d", len(g.strLits)+1))
 	g.emit(fmt.Sprintf("(declare-const %s Int)", sym))
 	g.assume(app("=", app("strlen", sym), fmt.Sprint(len(s))))
-	for _, other := range g.strLits {
-		g.assume(sNot(app("=", sym, other)))
+	for _, k := range sortedKeysS(g.strLits) {
+		g.assume(sNot(app("=", sym, g.strLits[k])))
 	}
 	if len(s) > 0 {
 		g.assume(sNot(app("=", sym, "str_empty")))
@@ -933,6 +933,28 @@ func (e *Env) evalCall(x *ECall) Val {
 		return intVal(app("tdiv", arg(0).T, arg(1).T))
 	case "tmod":
 		return intVal(app("tmod", arg(0).T, arg(1).T))
+	case "f64":
+		// f64(n) / f64(n, d): the float64 constant n (or n/d) exactly as a Go constant of that value is encoded (floats are
+		// uninterpreted: equal constants are equal, nothing else is known)
+		lit := func(i int) string {
+			s := strings.TrimSpace(exprString(x.Args[i]))
+			if _, ok := new(big.Int).SetString(s, 10); !ok {
+				efail("f64: integer literal expected, got %s", s)
+			}
+			return s
+		}
+		if len(x.Args) == 1 {
+			return Val{T: g.floatConst(lit(0)), Sort: SFloat}
+		}
+		if len(x.Args) == 2 {
+			r, ok := new(big.Rat).SetString(lit(0) + "/" + lit(1))
+			if !ok {
+				efail("f64(n, d)")
+			}
+			return Val{T: g.floatConst(r.RatString()), Sort: SFloat}
+		}
+		efail("f64(n) or f64(n, d)")
+		return Val{}
 	case "wrap64":
 		return intVal(app("mod", arg(0).T, pow2s(64)))
 	case "wrap32":
